@@ -2,7 +2,11 @@
 
 package blobpacked
 
-import "perkeep.org/pkg/blobserver"
+import (
+	"reflect"
+
+	"perkeep.org/pkg/blobserver"
+)
 
 // VerifSetMaxZipBlobSize overrides the maximum zip size of a blobpacked
 // storage so that multi-zip packs can be explored with small files.
@@ -12,4 +16,10 @@ func VerifSetMaxZipBlobSize(sto blobserver.Storage, n int) bool {
 		s.forceMaxZipBlobSize = n
 	}
 	return ok
+}
+
+// VerifGateOccupancy reports how many slots of the package-level stat gate are
+// currently taken (0 at every quiescent point unless a slot leaked).
+func VerifGateOccupancy() int {
+	return reflect.ValueOf(statGate).Elem().Field(0).Len()
 }
